@@ -193,7 +193,7 @@ temporary_stack& foonathan::memory::get_temporary_stack(std::size_t initial_size
 
 namespace
 {
-    thread_local alignas(temporary_stack) char temporary_stack_storage[sizeof(temporary_stack)];
+    alignas(temporary_stack) thread_local char temporary_stack_storage[sizeof(temporary_stack)];
     thread_local bool is_created = false;
 
     temporary_stack& get() noexcept
@@ -221,7 +221,10 @@ temporary_stack_initializer::temporary_stack_initializer(std::size_t initial_siz
 temporary_stack_initializer::~temporary_stack_initializer()
 {
     if (is_created)
+    {
         get().~temporary_stack();
+        is_created = false;
+    }
 }
 
 temporary_stack& foonathan::memory::get_temporary_stack(std::size_t initial_size)
